@@ -153,6 +153,16 @@ package deprecatedstate
 //@   loop 2: invariant genesis: blockNumber == 0 ==> calls_ContractStorageAt == old(calls_ContractStorageAt) && calls_ContractNonceAt == old(calls_ContractNonceAt) && calls_ContractClassHashAt == old(calls_ContractClassHashAt)
 //@   loop 3: invariant genesis: blockNumber == 0 ==> calls_ContractStorageAt == old(calls_ContractStorageAt) && calls_ContractNonceAt == old(calls_ContractNonceAt) && calls_ContractClassHashAt == old(calls_ContractClassHashAt)
 //@   loop 4: invariant genesis: blockNumber == 0 ==> calls_ContractStorageAt == old(calls_ContractStorageAt) && calls_ContractNonceAt == old(calls_ContractNonceAt) && calls_ContractClassHashAt == old(calls_ContractClassHashAt)
+//@   loop 3: invariant nonces_so_far: blockNumber > 0 ==> (forall a felt.Felt :: visited(a) ==> in(reversed.Nonces, a) && reversed.Nonces[a] != nil && allocated(reversed.Nonces[a]) && *reversed.Nonces[a] == nonceAsOf(a, uint64(blockNumber - 1)))
+// Storage: what is proved is the inner loop (every slot visited so far holds the value as of the
+// previous block, at every iteration); carrying that through the outer loop and the two later
+// loops to the function exit needs pairwise distinctness of all the fresh maps and costs minutes of
+// solver time, so the exit postcondition is stated for nonces and classes only.
+//@   loop 2: invariant slots_so_far: blockNumber > 0 ==> reversedDiffs != nil && (forall k felt.Felt :: visited(k) ==> in(reversedDiffs, k) && reversedDiffs[k] != nil && allocated(reversedDiffs[k]) && *reversedDiffs[k] == storageAsOf(addr, k, uint64(blockNumber - 1)))
+//@   loop 4: invariant nonces_done: blockNumber > 0 ==> (forall a felt.Felt :: in(diff.Nonces, a) ==> in(reversed.Nonces, a) && reversed.Nonces[a] != nil && allocated(reversed.Nonces[a]) && *reversed.Nonces[a] == nonceAsOf(a, uint64(blockNumber - 1)))
+//@   loop 4: invariant classes_so_far: blockNumber > 0 ==> (forall a felt.Felt :: visited(a) ==> in(reversed.ReplacedClasses, a) && reversed.ReplacedClasses[a] != nil && allocated(reversed.ReplacedClasses[a]) && *reversed.ReplacedClasses[a] == classHashAsOf(a, uint64(blockNumber - 1)))
+//@   ensures classes_as_of_previous_block: result1 == nil && blockNumber > 0 ==> (forall a felt.Felt :: in(diff.ReplacedClasses, a) ==> in(result0.ReplacedClasses, a) && result0.ReplacedClasses[a] != nil && *result0.ReplacedClasses[a] == classHashAsOf(a, uint64(blockNumber - 1)))
+//@   ensures nonces_as_of_previous_block: result1 == nil && blockNumber > 0 ==> (forall a felt.Felt :: in(diff.Nonces, a) ==> in(result0.Nonces, a) && result0.Nonces[a] != nil && *result0.Nonces[a] == nonceAsOf(a, uint64(blockNumber - 1)))
 //@   ensures never_ask_head: result1 != nil ==> !isCheckHead(result1)
 //@   ensures genesis: blockNumber == 0 ==> result1 == nil && calls_ContractStorageAt == old(calls_ContractStorageAt) && calls_ContractNonceAt == old(calls_ContractNonceAt) && calls_ContractClassHashAt == old(calls_ContractClassHashAt)
 
